@@ -288,3 +288,33 @@ def reproduce_known(entry, rundir):
     from core import run_impl
     rc, out, err = run_impl(IMPL, [entry['witness']['request']], rundir)
     return len(out) == 1 and out[0] == entry['witness']['impl_answer']
+
+
+# ---------------------------------------------------------------- extraction cross-check (see core.standard_check 2b)
+GOLDEN_HEADER = """From Coq Require Import ZArith List. From Coq.Strings Require Import Byte.
+From Verif Require Import Lib.Bytes Model.Wire. Import ListNotations. Open Scope Z_scope."""
+
+
+def _coq_bytes(h):
+    b = b'' if h == '-' else bytes.fromhex(h)
+    return '[' + '; '.join('x%02x' % x for x in b) + ']'
+
+
+def _coq_z(n):
+    return '(%d)' % n
+
+
+def golden(c, mo):
+    t = c.req.split(' ')
+    if t[0] == 'cs_enc':
+        return 'lib_cs_enc %s = %s' % (_coq_z(int(t[1])), 'None' if mo == 'ERR' else 'Some ' + _coq_bytes(mo))
+    if t[0] == 'cs_dec' and len(t[1]) <= 40:
+        v, k = mo.split(' ')[:2]
+        return 'lib_cs_dec %s = (%s, %s%%nat)' % (_coq_bytes(t[1]), _coq_z(int(v)), k)
+    if t[0] == 'encode_num':
+        return 'lib_encode_num %s = %s' % (_coq_z(int(t[1])), _coq_bytes(mo))
+    if t[0] == 'decode_num':
+        return 'lib_decode_num %s = %s' % (_coq_bytes(t[1]), _coq_z(int(mo)))
+    if t[0] == 'data_pack' and len(t[1]) <= 600:
+        return 'lib_data_pack %s = %s' % (_coq_bytes(t[1]), 'None' if mo == 'ERR' else 'Some ' + _coq_bytes(mo))
+    return None
